@@ -40,6 +40,9 @@ def prepare(tier, seed, out_dir):
 
 
 INCANTATION = '# Signa inter verba conjugo, symbolum infixus evoco!\n@Engine("sqlite");\nT(1);\nP(x) :- T(x);\n'
+MANY_LOCALS = ('@Engine("sqlite");\nT(1, 2, 3, 4, 5, 6);\nT(2, 3, 4, 5, 6, 7);\nK(1);\n'
+               'P(k, s, l) :- K(k), s == Sum{alpha + beta + gamma + delta + eps + zeta :- T(alpha, beta, gamma, delta, eps, zeta), alpha >= k},\n'
+               '  l == List{uu + vv :- T(uu, vv, ww, xx, yy, zz), ww < xx, yy < zz, m == Max{pp :- T(pp, qq, rr, ss, tt, oo), qq > uu}};\n')
 SENSITIVE = '@Engine("sqlite");\nF(x) = x + 1 :- x in [1, 2];\nG(y) :- y == 2*F(1);\nH(y) :- y == 2 * F(2);\n'
 
 
@@ -52,6 +55,7 @@ def make_manifest(rng, n, scratch):
   add('incantation', INCANTATION, 'P')
   add('incantation', SENSITIVE, 'G')
   add('incantation', SENSITIVE, 'H')
+  add('generated', MANY_LOCALS, 'P')
   corpus = sorted(glob.glob(os.path.join(repo.repo_root(), 'integration_tests', '*.l')))
   while len(entries) < n:
     k = rng.randrange(8)
